@@ -96,7 +96,7 @@ def make_h(tier):
         lang = ctx.pick("lang", ("python", "typescript", "javascript"))
         ext = {"python": ".py", "typescript": ".ts", "javascript": ".js"}[lang]
         w = ctx.pick("min_duplicate_lines", (2, 3, 4) if quick else (2, 3, 4, 5))
-        r = ctx.pick("run_length", (1, 2, 3, 4, 5) if quick else (1, 2, 3, 4, 5, 6, 7))
+        r = ctx.pick("run_length", (1, 2, 3, 4, 6) if quick else (1, 2, 3, 4, 5, 6, 7))
         layout = ctx.pick("layout", ("A+B", "A+A", "A+B+C", "A+A+B", "A-only-once") if quick else
                           ("A+B", "A+A", "A+B+C", "A+A+B", "A-only-once", "A+A+A", "A+B+B+C"))
         style = ctx.pick("style", ("plain", "indented", "commented", "commented-late", "spaced", "trailing-comment"))
@@ -126,9 +126,16 @@ def make_h(tier):
                 py = lang == "python"
                 pool = POOL if py else JS_POOL
                 endc, ind = ("", "    ") if py else (";", "  ")
+                # lines that differ only after the OTHER language's comment marker (floor division / private names)
+                diff_y = ["half = count // 2", "rest = width // 3", "tail = depth // 5", "last = span // 11"] if py else \
+                    ["this.#alpha = compute(1);", "this.#beta = compute(2);", "this.#gamma = compute(3);", "this.#delta = compute(4);"]
+                diff_z = ["half = count // 7", "rest = width // 9", "tail = depth // 13", "last = span // 17"] if py else \
+                    ["this.#omega = compute(1);", "this.#psi = compute(2);", "this.#chi = compute(3);", "this.#phi = compute(4);"]
                 for tag, body in (("y", list(reversed(pool[:max(r, 2)])) + [f"y_gap = y_stage(state, 71){endc}",
-                                        f"y_twice = y_double(state, 5){endc}", f"y_twice = y_double(state, 5){endc}", pool[-1]]),
-                                  ("z", [f"z_twice = z_double(state, 9){endc}", f"z_twice = z_double(state, 9){endc}", pool[-1]])):
+                                        f"y_twice = y_double(state, 5){endc}", f"y_twice = y_double(state, 5){endc}", pool[-1],
+                                        f"y_sep = y_stage(state, 72){endc}"] + diff_y),
+                                  ("z", [f"z_twice = z_double(state, 9){endc}", f"z_twice = z_double(state, 9){endc}", pool[-1],
+                                         f"z_sep = z_stage(state, 73){endc}"] + diff_z)):
                     L = [f"def handler_{tag}(order, customer, region, state):" if py else f"function handler{tag}(order, customer, region, state) {{"]
                     L += [ind + b for b in body] + [f"{ind}{tag}_end = {tag}_close(state, 3){endc}", f"{ind}return state{endc}"] + ([] if py else ["}"])
                     p = d / f"mod_{tag}{ext}"
